@@ -4,21 +4,28 @@ package c03
 
 import (
 	"fmt"
-	"sort"
 	"strconv"
 	"strings"
-
-	"github.com/welllog/golib/setz"
 
 	"verifharness/internal/core"
 )
 
 func init() {
+	assumptions := []string{
+		"Go int treated as unbounded (Len)",
+		"no mutation of the bitmap while an enumeration is running (a partly consumed iterator is only ever dropped)",
+		"the skip list under RoaringBitmap is modelled through its ordered-map interface (property C02); its random tower heights are not forced here",
+	}
+	if hooks {
+		assumptions = append(assumptions, "the representation (len, containers.len, per bucket: container kind, len(values) / cached length, popcount, len(set), content hash) is read from the real RoaringBitmap by reflection after mutations (`rep`) and compared with the model state and with the reference set + representation history")
+	} else {
+		assumptions = append(assumptions, "private fields len/containers/head/next/key/val/values/length/Bitmap.set NOT found with the expected shapes: the representation is not compared (API results only)")
+	}
 	core.Register(&core.Prop{
 		ID:       "C03",
 		Title:    "RoaringBitmap behaves as a set of uint32 with complete ascending enumeration",
 		Quick:    700,
-		Thorough: 8000,
+		Thorough: 6000,
 		Gen:      gen,
 		Corpus:   corpus,
 		Impl:     impl,
@@ -27,193 +34,42 @@ func init() {
 			// at least one enumeration over ≥ 2 buckets or over a bucket that was converted
 			return strings.Contains(c.Tag, "multi") || strings.Contains(c.Tag, "dense")
 		},
-		Rule:     "op sequences (add/rm/has/len/fill/drain/range/all/iter) on a zero-value RoaringBitmap, values concentrated on 1–4 high-16-bit buckets, bucket fill levels steered around 4094–4099; non-trivial = the sequence enumerates ≥ 2 buckets or a bucket taken across the 4096 threshold; distinct by hash of the op list",
-		Classify: classify,
-		Facts:    facts,
-		Parallel: true,
-		Assumptions: []string{
-			"Go int treated as unbounded (Len)",
-			"no mutation of the bitmap while an enumeration is running",
-			"the skip list under RoaringBitmap is modelled through its ordered-map interface (property C02)",
-		},
+		Rule:        "op sequences (add/rm/has/len/fill/drain/range/all/iter/iterk/rep) on a zero-value RoaringBitmap over 1–8 high-16-bit buckets; light cases: small fills/drains, bucket removal at the lowest/middle/highest key, boundary values; heavy cases: scripted events (bucket taken to exactly 4095/4096, duplicate there, conversion by one new value below/above/in the middle or inside a bulk fill, dense bucket drained to 1, to 0, re-created, second conversion, absent removals, bulk traffic on dense buckets), each followed by the representation dump and enumerations (k at bucket boundaries, 1, Len, Len+1); non-trivial = the sequence enumerates ≥ 2 buckets or a bucket taken across the 4096 threshold; distinct by hash of the op list",
+		Classify:    classify,
+		Facts:       facts,
+		Parallel:    true,
+		Assumptions: assumptions,
 		TrustedBase: []string{
 			"the unsafe reinterpretation of the first 8192 bytes of the array container as [1024]uint64 is modelled as a fresh zeroed word array (setZero overwrites it)",
+			"the compiled oracle evaluates bitSet and Inner.next through kernel-checked @[csimp] equalities (bitSet_eq_bitSetFast, Inner.next_eq_nextFast in Model/C03Roaring.lean); the definitions the theorems are about are unchanged",
 		},
 	})
 }
 
 func corpus() []core.Case {
-	return []core.Case{
+	cs := []core.Case{
 		// F2 witness: three buckets
-		{Lines: []string{"@ C03 rb", "add 1", "add 70000", "add 140000", "len", "iter", "range 0", "all 0"}, Tag: "corpus-multi"},
-		{Lines: []string{"@ C03 rb", "iter", "range 0", "all 0", "len", "has 0", "rm 0"}, Tag: "corpus"},
+		{Lines: []string{"@ C03 rb", "add 1", "add 70000", "add 140000", "len", "rep", "iter", "range 0", "all 0", "iterk 2", "iter"}, Tag: "corpus-multi"},
+		{Lines: []string{"@ C03 rb", "iter", "range 0", "all 0", "len", "has 0", "rm 0", "rep", "iterk 0", "iterk 3"}, Tag: "corpus"},
 		// exactly at the conversion threshold, value 0 / 0xFFFF / 0xFFFFFFFF
-		{Lines: []string{"@ C03 rb", "fill 0 0 4096 1", "len", "iter", "add 65535", "len", "iter", "range 0", "all 0", "has 65535", "has 4096", "rm 0", "iter", "len"}, Tag: "corpus-dense"},
-		{Lines: []string{"@ C03 rb", "fill 65535 65535 4097 65535", "add 4294967295", "has 4294967295", "len", "iter", "range 3", "all 5", "drain 65535 0 65535 1", "len", "iter", "rm 4294967295", "len", "iter", "add 4294967295", "iter"}, Tag: "corpus-dense"},
-		{Lines: []string{"@ C03 rb", "fill 1 10 4097 3", "fill 2 0 5 1", "iter", "drain 1 10 4097 3", "iter", "len", "fill 1 7 2 1", "iter", "range 0"}, Tag: "corpus-dense-multi"},
+		{Lines: []string{"@ C03 rb", "fill 0 0 4096 1", "len", "rep", "iter", "add 4095", "rep", "add 65535", "rep", "len", "iter", "range 0", "all 0", "has 65535", "has 4096", "rm 0", "rep", "iter", "len"}, Tag: "corpus-dense"},
+		{Lines: []string{"@ C03 rb", "fill 65535 65535 4097 65535", "rep", "add 4294967295", "has 4294967295", "len", "iter", "range 3", "all 5", "drain 65535 0 65535 1", "rep", "len", "iter", "rm 4294967295", "rep", "len", "iter", "add 4294967295", "rep", "iter"}, Tag: "corpus-dense"},
+		{Lines: []string{"@ C03 rb", "fill 1 10 4097 3", "fill 2 0 5 1", "rep", "iter", "drain 1 10 4097 3", "rep", "iter", "len", "fill 1 7 2 1", "rep", "iter", "range 0"}, Tag: "corpus-dense-multi"},
+		// conversion by a value below all / in the middle; dense bucket between two sparse ones; k at the bucket boundaries
+		{Lines: []string{"@ C03 rb", "add 5", "add 196613", "fill 1 100 4096 2", "rep", "add 65537", "rep", "range 1", "range 2", "all 4098", "all 4099", "iterk 4098", "iter", "rm 65537", "rm 65736", "rep", "add 65737", "rep", "iter"}, Tag: "corpus-dense-multi"},
 	}
-}
-
-var steps = []int{1, 1, 1, 2, 3, 7, 16, 63, 64, 65, 4093, 40503, 65535}
-
-func gen(r *core.Rand, tier string) core.Case {
-	lines := []string{"@ C03 rb"}
-	nb := r.Range(1, 4)
-	pool := []int{0, 1, 2, 3, 0x7FFF, 0x8000, 0xFFFE, 0xFFFF}
-	var his []int
-	for len(his) < nb {
-		h := pool[r.Intn(len(pool))]
-		if r.Chance(20) {
-			h = r.Intn(65536)
-		}
-		dup := false
-		for _, x := range his {
-			dup = dup || x == h
-		}
-		if !dup {
-			his = append(his, h)
-		}
-	}
-	ref := map[uint32]bool{}
-	cnt := map[int]int{}
-	heavy := r.Chance(12) || (tier == "thorough" && r.Chance(20))
-	dense := false
-	probe := func() {
-		for k := r.Range(1, 3); k > 0; k-- {
-			switch r.Pick(3, 3, 3, 2, 3) {
-			case 0:
-				lines = append(lines, "iter")
-			case 1:
-				lines = append(lines, fmt.Sprintf("range %d", pickStop(r, len(ref))))
-			case 2:
-				lines = append(lines, fmt.Sprintf("all %d", pickStop(r, len(ref))))
-			case 3:
-				lines = append(lines, "len")
-			case 4:
-				lines = append(lines, fmt.Sprintf("has %d", pickVal(r, his)))
-			}
-		}
-	}
-	apply := func(rm bool, hi, start, n, step int) {
-		for i := 0; i < n; i++ {
-			v := uint32(hi)<<16 | uint32((start+i*step)%65536)
-			if rm {
-				if ref[v] {
-					delete(ref, v)
-					cnt[hi]--
-				}
-			} else if !ref[v] {
-				ref[v] = true
-				cnt[hi]++
-			}
-		}
-		op := "fill"
-		if rm {
-			op = "drain"
-		}
-		lines = append(lines, fmt.Sprintf("%s %d %d %d %d", op, hi, start, n, step))
-	}
-	phases := r.Range(2, 7)
-	for p := 0; p < phases; p++ {
-		hi := his[r.Intn(len(his))]
-		if heavy {
-			switch r.Pick(5, 3, 2, 2) {
-			case 0: // steer the bucket's fill level to 4094..4099
-				target := r.Range(4094, 4099)
-				step := steps[r.Intn(len(steps))]
-				if cnt[hi] < target {
-					// a fresh arithmetic run adds at most `need` new members
-					apply(false, hi, r.Intn(65536), target-cnt[hi], step)
-				} else {
-					apply(true, hi, r.Intn(65536), r.Range(1, 8), step)
-				}
-				if cnt[hi] > 4096 {
-					dense = true
-				}
-			case 1: // removals from a (possibly dense) bucket
-				apply(true, hi, r.Intn(65536), r.Range(1, 5000), steps[r.Intn(len(steps))])
-			case 2: // empty the bucket completely, then refill a little
-				apply(true, hi, 0, 65536, 1)
-				if r.Bool() {
-					apply(false, hi, r.Intn(65536), r.Range(1, 6), steps[r.Intn(len(steps))])
-				}
-			case 3:
-				apply(false, hi, r.Intn(65536), r.Range(1, 6000), steps[r.Intn(len(steps))])
-				if cnt[hi] > 4096 {
-					dense = true
+	if !hooks {
+		for i := range cs {
+			var ls []string
+			for _, l := range cs[i].Lines {
+				if l != "rep" {
+					ls = append(ls, l)
 				}
 			}
-		} else {
-			switch r.Pick(4, 2, 1) {
-			case 0:
-				apply(false, hi, r.Intn(65536), r.Range(1, 40), steps[r.Intn(len(steps))])
-			case 1:
-				apply(true, hi, r.Intn(65536), r.Range(1, 40), steps[r.Intn(len(steps))])
-			case 2:
-				apply(true, hi, 0, 65536, 1)
-			}
+			cs[i].Lines = ls
 		}
-		// single operations around the edges
-		for k := r.Range(0, 6); k > 0; k-- {
-			v := pickVal(r, his)
-			if r.Chance(55) {
-				lines = append(lines, fmt.Sprintf("add %d", v))
-				if !ref[uint32(v)] {
-					ref[uint32(v)] = true
-					cnt[v>>16]++
-					if cnt[v>>16] > 4096 {
-						dense = true
-					}
-				}
-			} else {
-				lines = append(lines, fmt.Sprintf("rm %d", v))
-				if ref[uint32(v)] {
-					delete(ref, uint32(v))
-					cnt[v>>16]--
-				}
-			}
-		}
-		probe()
 	}
-	lines = append(lines, "len", "iter", "range 0", "all 0")
-	tag := "light"
-	if heavy {
-		tag = "heavy"
-	}
-	if dense {
-		tag += "-dense"
-	}
-	if nb > 1 {
-		tag += "-multi"
-	}
-	return core.Case{Lines: lines, Tag: tag}
-}
-
-func pickStop(r *core.Rand, n int) int {
-	if r.Chance(60) {
-		return 0
-	}
-	if n > 0 && r.Chance(70) {
-		return r.Range(1, n+1)
-	}
-	return r.Range(1, 5)
-}
-
-func pickVal(r *core.Rand, his []int) int {
-	hi := his[r.Intn(len(his))]
-	if r.Chance(5) {
-		hi = r.Intn(65536)
-	}
-	var lo int
-	switch r.Pick(3, 3, 2) {
-	case 0:
-		lo = []int{0, 1, 63, 64, 65, 4095, 4096, 4097, 0xFFFE, 0xFFFF}[r.Intn(10)]
-	case 1:
-		lo = r.Intn(65536)
-	case 2:
-		lo = r.Intn(130)
-	}
-	return hi<<16 | lo
+	return cs
 }
 
 func hashVals(xs []uint32) uint64 {
@@ -269,258 +125,4 @@ func parseBulk(t []string) (bulkArgs, bool) {
 		return a, false
 	}
 	return a, true
-}
-
-func impl(c core.Case) []string {
-	var rb setz.RoaringBitmap
-	return core.RunOps(c,
-		func(hdr []string) string {
-			if len(hdr) != 1 || hdr[0] != "rb" {
-				return "bad-op"
-			}
-			return "ok"
-		},
-		func(t []string) string {
-			if len(t) == 0 {
-				return "bad-op"
-			}
-			switch t[0] {
-			case "add", "rm", "has":
-				if len(t) != 2 {
-					return "bad-op"
-				}
-				v, ok := parseU32(t[1])
-				if !ok {
-					return "bad-op"
-				}
-				switch t[0] {
-				case "add":
-					return strconv.FormatBool(rb.Add(v))
-				case "rm":
-					return strconv.FormatBool(rb.Remove(v))
-				}
-				return strconv.FormatBool(rb.Contains(v))
-			case "len":
-				if len(t) != 1 {
-					return "bad-op"
-				}
-				return strconv.Itoa(rb.Len())
-			case "fill", "drain":
-				a, ok := parseBulk(t)
-				if !ok {
-					return "bad-op"
-				}
-				k := 0
-				cur := a.start
-				for i := 0; i < a.n; i++ {
-					v := uint32(a.hi)<<16 | uint32(cur%65536)
-					var ok bool
-					if t[0] == "fill" {
-						ok = rb.Add(v)
-					} else {
-						ok = rb.Remove(v)
-					}
-					if ok {
-						k++
-					}
-					cur += a.step
-				}
-				return strconv.Itoa(k)
-			case "range", "all":
-				if len(t) != 2 {
-					return "bad-op"
-				}
-				stop, err := strconv.Atoi(t[1])
-				if err != nil || stop < 0 {
-					return "bad-op"
-				}
-				var xs []uint32
-				fn := func(v uint32) bool {
-					xs = append(xs, v)
-					return len(xs) != stop
-				}
-				if t[0] == "range" {
-					rb.Range(fn)
-				} else {
-					rb.All()(fn)
-				}
-				return summary(xs)
-			case "iter":
-				if len(t) != 1 {
-					return "bad-op"
-				}
-				it := rb.Iter()
-				var xs []uint32
-				for it.Next() {
-					xs = append(xs, it.Value())
-					if len(xs) > rb.Len()+70000 {
-						return "iter-does-not-terminate"
-					}
-				}
-				return summary(xs) + " again=" + strconv.FormatBool(it.Next())
-			}
-			return "bad-op"
-		})
-}
-
-// check is the property's own predicate: a map[uint32]bool reference plus sort,
-// independent of the Lean model.
-func check(c core.Case, out []string) *core.Failure {
-	ref := map[uint32]bool{}
-	sorted := func() []uint32 {
-		xs := make([]uint32, 0, len(ref))
-		for v := range ref {
-			xs = append(xs, v)
-		}
-		sort.Slice(xs, func(i, j int) bool { return xs[i] < xs[j] })
-		return xs
-	}
-	fail := func(i int, key, want string) *core.Failure {
-		return &core.Failure{Key: key, Desc: fmt.Sprintf("op %d %q: implementation answered %q, a set of uint32 with %d members answers %q", i, c.Lines[i], out[i], len(ref), want)}
-	}
-	for i := 1; i < len(c.Lines); i++ {
-		t := core.Toks(c.Lines[i])
-		if out[i] == "bad-op" {
-			continue
-		}
-		if out[i] == "panic" {
-			return fail(i, "panic", "no panic")
-		}
-		switch t[0] {
-		case "add":
-			v, _ := parseU32(t[1])
-			want := strconv.FormatBool(!ref[v])
-			ref[v] = true
-			if out[i] != want {
-				return fail(i, "add-result", want)
-			}
-		case "rm":
-			v, _ := parseU32(t[1])
-			want := strconv.FormatBool(ref[v])
-			delete(ref, v)
-			if out[i] != want {
-				return fail(i, "remove-result", want)
-			}
-		case "has":
-			v, _ := parseU32(t[1])
-			if want := strconv.FormatBool(ref[v]); out[i] != want {
-				return fail(i, "contains", want)
-			}
-		case "len":
-			if want := strconv.Itoa(len(ref)); out[i] != want {
-				return fail(i, "len", want)
-			}
-		case "fill", "drain":
-			a, _ := parseBulk(t)
-			k := 0
-			cur := a.start
-			for j := 0; j < a.n; j++ {
-				v := uint32(a.hi)<<16 | uint32(cur%65536)
-				if t[0] == "fill" {
-					if !ref[v] {
-						k++
-						ref[v] = true
-					}
-				} else if ref[v] {
-					k++
-					delete(ref, v)
-				}
-				cur += a.step
-			}
-			if want := strconv.Itoa(k); out[i] != want {
-				return fail(i, t[0]+"-count", want)
-			}
-		case "range", "all":
-			stop, _ := strconv.Atoi(t[1])
-			xs := sorted()
-			if stop > 0 && stop < len(xs) {
-				xs = xs[:stop]
-			}
-			if want := summary(xs); out[i] != want {
-				return fail(i, t[0]+"-enumeration", want)
-			}
-		case "iter":
-			if want := summary(sorted()) + " again=false"; out[i] != want {
-				return fail(i, "iter-enumeration", want)
-			}
-		}
-	}
-	return nil
-}
-
-func classify(c core.Case, out []string) []string {
-	var ls []string
-	ref := map[uint32]bool{}
-	cnt := map[uint32]int{}
-	conv := map[uint32]bool{}
-	note := func(v uint32, add bool) {
-		h := v >> 16
-		if add && !ref[v] {
-			ref[v] = true
-			cnt[h]++
-			if cnt[h] == 4097 && !conv[h] {
-				conv[h] = true
-				ls = append(ls, "array→bitmap conversion")
-			}
-		} else if !add && ref[v] {
-			delete(ref, v)
-			cnt[h]--
-			if cnt[h] == 0 {
-				if conv[h] {
-					ls = append(ls, "dense bucket emptied")
-				} else {
-					ls = append(ls, "sparse bucket emptied")
-				}
-				delete(conv, h)
-			} else if conv[h] {
-				ls = append(ls, "remove from dense bucket")
-			}
-		}
-	}
-	for i, l := range c.Lines[1:] {
-		t := core.Toks(l)
-		switch t[0] {
-		case "add", "rm":
-			v, _ := parseU32(t[1])
-			note(v, t[0] == "add")
-		case "fill", "drain":
-			a, _ := parseBulk(t)
-			cur := a.start
-			for j := 0; j < a.n; j++ {
-				note(uint32(a.hi)<<16|uint32(cur%65536), t[0] == "fill")
-				cur += a.step
-			}
-		case "iter", "range", "all":
-			nb := 0
-			dense := 0
-			for h, n := range cnt {
-				if n > 0 {
-					nb++
-					if conv[h] {
-						dense++
-					}
-				}
-			}
-			lab := t[0] + " over "
-			switch {
-			case nb == 0:
-				lab += "empty"
-			case nb == 1:
-				lab += "1 bucket"
-			default:
-				lab += "≥2 buckets"
-			}
-			if dense > 0 {
-				lab += " (dense present)"
-			}
-			ls = append(ls, lab)
-			if len(t) == 2 && t[1] != "0" {
-				ls = append(ls, "early stop")
-			}
-		}
-		if out[i+1] == "panic" {
-			ls = append(ls, "panic")
-		}
-	}
-	return ls
 }
